@@ -1,3 +1,6 @@
+#[cfg(getong_stateright_verif)]
+use crate::verif_hooks::{Condvar, Mutex};
+#[cfg(not(getong_stateright_verif))]
 use parking_lot::{Condvar, Mutex};
 use std::{
     collections::VecDeque,
